@@ -202,6 +202,12 @@ class C01:
                         prior[dst] = prog[src]
                     sc["prior"] = copy.deepcopy(prior)
                     sc["history"] = ["prior_check"] + (["prior_run"] if rnd.random() < 0.5 else []) + hist
+        if sc.get("prior") and "run" in sc["history"] and rnd.random() < 0.4:
+            # ... and once more between this pipeline's check and its run: the configuration returned by the check
+            # must still describe this pipeline
+            h = sc["history"]
+            first_run = h.index("run")
+            h.insert(first_run, "prior_check")
         return sc
 
     # -----------------------------------------------------------------------------------------------------------
